@@ -11,7 +11,7 @@ def _ceil(a, b):
 class C28(Check):
     id = "C28"
     prop_file = "theories/Properties/Properties_C28.v"
-    theorems = ("C28_in_range_aligned", "C28_live_disjoint", "C28_malloc_fails_iff_no_run",
+    theorems = ("C28_malloc_returns_live", "C28_in_range_aligned", "C28_live_disjoint", "C28_malloc_fails_iff_no_run",
                 "C28_best_fit", "C28_segments_wellformed", "C28_coalesced", "C28_in_use",
                 "C28_free_space", "C28_index_consistent", "C28_ignored_free", "C28_malloc_zero")
     comp = "zone"
